@@ -96,3 +96,73 @@ Proof.
     rewrite ui_names_preorder by (apply H; now left). f_equal. apply IH. intros x Hx. apply H. now right.
   - rewrite flat_map_map. apply flat_map_nil_forall. apply Forall_forall. intros x Hx. apply well_placed_no_error. apply H, Hx.
 Qed.
+
+(* ---- objtree.rs: the flat vector and the child index lists represent the tree ---- *)
+Definition fname (f : fnode) : nat := snd (fst f).
+(* node i of the flat vector represents the tree n: same kind and name, and its child indices represent the children in order *)
+Fixpoint represents (nodes : list fnode) (i : nat) (n : onode) : Prop :=
+  match n with
+  | ON k nm _ ch => exists idxs, nth_error nodes i = Some (k, nm, idxs) /\
+      (fix all2 (ix : list nat) (cs : list onode) {struct cs} : Prop :=
+         match cs, ix with [], [] => True | c :: cs', j :: ix' => represents nodes j c /\ all2 ix' cs' | _, _ => False end) idxs ch
+  end.
+Definition all_represent (nodes : list fnode) := fix all2 (ix : list nat) (cs : list onode) {struct cs} : Prop :=
+  match cs, ix with [], [] => True | c :: cs', j :: ix' => represents nodes j c /\ all2 ix' cs' | _, _ => False end.
+
+Lemma represents_unfold nodes i k nm a ch : represents nodes i (ON k nm a ch) <-> exists idxs, nth_error nodes i = Some (k, nm, idxs) /\ all_represent nodes idxs ch.
+Proof. reflexivity. Qed.
+
+Lemma all_represent_map (P Q : nat -> onode -> Prop) nodes nodes' : forall cs ix,
+  Forall (fun c => forall j, represents nodes j c -> represents nodes' j c) cs -> all_represent nodes ix cs -> all_represent nodes' ix cs.
+Proof.
+  induction cs as [|c r IHr]; intros [|j ix] F H; cbn [all_represent] in *; try contradiction; auto.
+  inversion F as [|? ? Hc Hr]; subst. destruct H as [A B]. split; [apply Hc, A|apply IHr; assumption].
+Qed.
+
+Lemma represents_mono : forall n nodes ext i, represents nodes i n -> represents (nodes ++ ext) i n.
+Proof.
+  induction n as [k nm acts ch IH] using onode_rect'. intros nodes ext i H.
+  destruct (proj1 (represents_unfold _ _ _ _ _ _) H) as [idxs [H1 H2]]. apply (proj2 (represents_unfold _ _ _ _ _ _)). exists idxs. split.
+  - rewrite nth_error_app1; [exact H1|]. apply nth_error_Some. congruence.
+  - apply (all_represent_map (fun _ _ => True) (fun _ _ => True) nodes (nodes ++ ext) ch idxs); [|exact H2].
+    eapply Forall_impl; [|exact IH]. intros c Hc j Hj. apply Hc, Hj.
+Qed.
+
+Definition go_children := fix go (cs : list onode) (a : list fnode) : list fnode * list nat :=
+  match cs with [] => (a, []) | c :: r => let '(a1, i) := flatten c a in let '(a2, ix) := go r a1 in (a2, i :: ix) end.
+
+Lemma flatten_unfold k nm a ch acc : flatten (ON k nm a ch) acc = let '(acc', idxs) := go_children ch acc in (acc' ++ [(k, nm, idxs)], length acc').
+Proof. reflexivity. Qed.
+
+(* the flat vector extends the accumulator by the nodes of the tree in post-order; the returned index is the root's, it is the last
+   one; and it represents the tree *)
+Theorem flatten_spec : forall n acc, exists ext, fst (flatten n acc) = acc ++ ext /\ snd (flatten n acc) = length acc + length ext - 1
+  /\ ext <> [] /\ map fname ext = post_order n /\ represents (fst (flatten n acc)) (snd (flatten n acc)) n.
+Proof.
+  induction n as [k nm acts ch IH] using onode_rect'. intros acc. rewrite flatten_unfold.
+  assert (G : forall cs a, Forall (fun c => forall acc0, exists ext, fst (flatten c acc0) = acc0 ++ ext /\ snd (flatten c acc0) = length acc0 + length ext - 1
+                                          /\ ext <> [] /\ map fname ext = post_order c /\ represents (fst (flatten c acc0)) (snd (flatten c acc0)) c) cs ->
+              exists ext, fst (go_children cs a) = a ++ ext /\ map fname ext = flat_map post_order cs /\ all_represent (fst (go_children cs a)) (snd (go_children cs a)) cs).
+  { induction cs as [|c r IHr]; intros a F; cbn [go_children].
+    - exists []. rewrite app_nil_r. repeat split.
+    - inversion F as [|? ? Hc Hr]; subst. destruct (Hc a) as [e1 [E1 [E2 [E3 [E4 E5]]]]].
+      destruct (flatten c a) as [a1 i] eqn:Fc. cbn [fst snd] in *. destruct (IHr a1 Hr) as [e2 [G1 [G2 G3]]].
+      destruct (go_children r a1) as [a2 ix] eqn:Gr. cbn [fst snd] in *. exists (e1 ++ e2). split; [rewrite G1, E1, app_assoc; reflexivity|].
+      split; [rewrite map_app, E4, G2; reflexivity|]. cbn. split; [|exact G3].
+      rewrite G1. apply represents_mono. exact E5. }
+  destruct (G ch acc IH) as [ext [G1 [G2 G3]]]. destruct (go_children ch acc) as [acc' idxs]. cbn [fst snd] in *.
+  exists (ext ++ [(k, nm, idxs)]). split; [rewrite G1, app_assoc; reflexivity|]. split; [rewrite G1, !app_length; cbn; lia|].
+  split; [intros X; apply app_eq_nil in X; destruct X; discriminate|]. split; [rewrite map_app, G2; reflexivity|].
+  apply (proj2 (represents_unfold _ _ _ _ _ _)). exists idxs. split.
+  - rewrite nth_error_app2 by lia. rewrite Nat.sub_diag. reflexivity.
+  - apply (all_represent_map (fun _ _ => True) (fun _ _ => True) acc' (acc' ++ [(k, nm, idxs)]) ch idxs); [|exact G3].
+    apply Forall_forall. intros c _ j Hj. apply represents_mono, Hj.
+Qed.
+
+(* the root is the last node of the flat vector (ObjectTree::root = nodes.last()), and the vector lists the objects in post-order *)
+Theorem flatten_tree_spec root : map fname (flatten_tree root) = post_order root
+  /\ represents (flatten_tree root) (length (flatten_tree root) - 1) root.
+Proof.
+  unfold flatten_tree. destruct (flatten_spec root []) as [ext [E1 [E2 [E3 [E4 E5]]]]]. cbn [app length Nat.add] in *.
+  rewrite E1. split; [exact E4|]. rewrite E1 in E5. rewrite E2 in E5. exact E5.
+Qed.
